@@ -65,7 +65,7 @@ def message_shape_violations(ctx, cfg="dev", only_codes=None, within_prefix=None
     f = ctx.facts(cfg)
     cg = ctx.cg(cfg)
     out = []
-    for s in emit.error_sites(f, cg, ctx.reachable(cfg)):
+    for s in emit.message_sites(f, cg, ctx.reachable(cfg)):
         if s["variant"] != "Error":
             continue
         pl = s["payload"]
@@ -270,7 +270,7 @@ def run(ctx, rep):
               "CdpTracker::new evaluates to %s" % (vkey(nv)[:300] if nv is not None else "?"))
 
     # ---------------- R7.5 message shape & offset provenance of every Error
-    sites = emit.error_sites(f, cg, reach)
+    sites = emit.message_sites(f, cg, reach)
     n_fmt = 0
     for s in sites:
         if s["variant"] != "Error":
